@@ -111,7 +111,21 @@ class Oracle:
             elif self._name(s, ops[j], self.ops_full):
                 yield j + 1, env
             return
-        name, body, _ = split_times(node)
+        name, body, times = split_times(node)
+        if times is not None and name == "$not":
+            # repeated operand-level $not: lo..hi consecutive operands none of which the argument matches
+            lo, hi = times
+            k, jj = 0, j
+            if lo == 0:
+                yield j, env
+            while k < hi:
+                nxt = [nj for nj, _ in self.opl({name: body}, ops, jj, env)]
+                if not nxt:
+                    break
+                jj, k = nxt[0], k + 1
+                if k >= lo:
+                    yield jj, env
+            return
         if name == "$or":
             for x in body:
                 yield from self.opl(x, ops, j, env)
